@@ -1,4 +1,4 @@
 """Manifest-level facts kept by hand (per-property claims live in lib/props/cNN.py as CLAIM)."""
 HOOK_COMMITS = ["5b4a1264fac4eba726b63d3638e31da0ec4eeb9c", "06a635a66074816540403030e87ac5fae2708e67"]
-READY = {"C01", "C02", "C08", "C03", "C04", "C05", "C06", "C07", "C09", "C11", "C12", "C13", "C14", "C15", "C16", "C17", "C18", "C19", "C20"}
+READY = {"C01", "C02", "C08", "C10", "C03", "C04", "C05", "C06", "C07", "C09", "C11", "C12", "C13", "C14", "C15", "C16", "C17", "C18", "C19", "C20"}
 NOT_YET = {}          # property id -> reason it is not claimed
